@@ -285,7 +285,9 @@ def _strategy(opts=None):
     return Q.query_strategy(S['info'], opts)
 
 
-def _run(rec, case, det_pool):
+def _run(rec, case, det_pool, order=None):
+    if order is not None:
+        order.append(case['text'])
     viol, info = run_case(case)
     if info['status'] != 'ok':
         rec.evaluations += 1
@@ -303,8 +305,11 @@ def _run(rec, case, det_pool):
     rec.case(case['text'], nontrivial=bool(nontrivial), classes=classes,
              sample={'text': case['text'][:400], 'sql_levels': lv, 'column_refs': st.get('colrefs')})
     rec.extra['column_refs_checked'] = rec.extra.get('column_refs_checked', 0) + st.get('colrefs', 0)
-    if len(det_pool) < 400 and 'fp' in info:
-        det_pool.append((case['text'], info['fp'], info['fp_loose'], info['fp_bag']))
+    if 'fp' in info:
+        # every compiled text in order: the history of this process (late-recompile stage)
+        det_pool.append((case['text'], info['fp'], info['fp_loose'], info['fp_bag'],
+                         (len(order) - 1) if (order is not None and
+                                              not any(s.startswith('nondeterministic') for s, _ in viol)) else None))
     seen = set()
     for sig, detail in viol:
         if sig not in seen:
@@ -316,9 +321,37 @@ def shard(rec, idx, nshards, seed, tier):
     preload()
     n = 180 if tier == 'quick' else 6500
     det_pool: list = []
-    core.run_given(_strategy(), lambda c: _run(rec, c, det_pool), seed=seed * 1000 + idx, max_examples=n)
-    # cross-process determinism with another hash seed
+    order: list = []
+    core.run_given(_strategy(), lambda c: _run(rec, c, det_pool, order), seed=seed * 1000 + idx, max_examples=n)
+    # late recompile: the same process, aged by everything it compiled in between, must still
+    # produce the same bytes for a statement it compiled earlier (history independence)
     k = 60 if tier == 'quick' else 400
+    hist = list(order)
+    for dp in range(min(k, len(det_pool)) - 1, -1, -1):
+        text, fp, fpl, fpb, pos = det_pool[dp]
+        if pos is None:
+            continue
+        rec.extra['late_recompiled'] = rec.extra.get('late_recompiled', 0) + 1
+        try:
+            units, _ = _compile(text)
+        except Exception as e:
+            rec.violation('nondeterministic:late:second-compile-fails',
+                          dict(text=text, features=[], before=hist[:pos], history=hist[pos + 1:]),
+                          f'`{text}` compiled at first and fails after {len(hist) - pos - 1} other '
+                          f'statements were compiled by the same process: {type(e).__name__}: {e}')
+            continue
+        if fingerprint(units, mask=True) == fp:
+            continue
+        if fingerprint(units, mask=2) == fpl:
+            sig = 'nondeterministic:transient-id-in-sql'
+        elif fingerprint(units, mask=3) == fpb:
+            sig = 'nondeterministic:late:reordered'
+        else:
+            sig = 'nondeterministic:late:differs'
+        rec.violation(sig, dict(text=text, features=[], before=hist[:pos], history=hist[pos + 1:]),
+                      f'`{text}`: sql/descriptors differ from the first compilation after the same process '
+                      f'compiled {len(hist) - pos - 1} other statements')
+    # cross-process determinism with another hash seed
     sample = det_pool[:k]
     if sample:
         # two fresh processes that compile the same list in the same order (equal history) and
@@ -326,7 +359,7 @@ def shard(rec, idx, nshards, seed, tier):
         first = _other_process([t[0] for t in sample], '54321')
         other = _other_process([t[0] for t in sample], '12345')
         rec.extra['cross_process_recompiled'] = rec.extra.get('cross_process_recompiled', 0) + len(sample)
-        for (text, _fp, _fpl, _fpb), fps1, fps in zip(sample, first, other):
+        for (text, _fp, _fpl, _fpb, _clean), fps1, fps in zip(sample, first, other):
             if not fps1:
                 continue
             fp, fp_loose, fp_bag = fps1
@@ -360,8 +393,34 @@ def _other_process(texts, hashseed='12345'):
     return json.loads(p.stdout.decode().strip().splitlines()[-1])
 
 
+def _late_fails(case):
+    """fresh process: compile text, then the history, then text again -> True when they differ"""
+    p = subprocess.run([sys.executable, '-m', 'vp_harness.props.c13', '--late'],
+                       input=json.dumps(dict(text=case['text'], before=case.get('before', []), history=case['history'])).encode(),
+                       stdout=subprocess.PIPE, stderr=subprocess.PIPE, cwd=str(core.VERIF))
+    if p.returncode != 0:
+        raise core.HarnessError('late subprocess failed: ' + p.stderr.decode()[-2000:])
+    return json.loads(p.stdout.decode().strip().splitlines()[-1])
+
+
+def shrink(case, sig):
+    if not case.get('history'):
+        return case
+    def simplify(c):
+        if c.get('before'):
+            yield dict(c, before=[])
+        for h in core.list_simplify(c['history']):
+            yield dict(c, history=h)
+        for h in core.list_simplify(c.get('before') or []):
+            yield dict(c, before=h)
+    return core.greedy_shrink(case, lambda c: bool(_late_fails(c)), simplify, budget_s=240, max_steps=40)
+
+
 def replay(case):
     preload()
+    if case.get('history') is not None:
+        r = _late_fails(case)
+        return (f'nondeterministic:late: `{case["text"]}` {r}') if r else None
     viol, info = run_case(case)
     viol = [v for v in viol if v[0] not in case.get('ignore_sigs', ())]
     if not viol and case.get('xproc') and info.get('status') == 'ok':
@@ -371,6 +430,32 @@ def replay(case):
             return 'nondeterministic:cross-process: fingerprints differ between processes'
     return '; '.join(f'{s}: {d}' for s, d in viol[:2]) or None
 
+
+if __name__ == '__main__' and '--late' in sys.argv:
+    c = json.loads(sys.stdin.read())
+    preload()
+    for t in c.get('before', []):
+        for _k in range(2):
+            try:
+                _compile(t)
+            except Exception:
+                break
+    u1, _ = _compile(c['text'])
+    f1 = fingerprint(u1, mask=True)
+    for t in c['history']:
+        for _k in range(2):
+            try:
+                _compile(t)
+            except Exception:
+                break
+    try:
+        u2, _ = _compile(c['text'])
+        f2 = fingerprint(u2, mask=True)
+        print(json.dumps(None if f1 == f2 else 'differs after ' + str(len(c['history'])) + ' statements: '
+                         + str(_diff_parts(u1, u2))[:600]))
+    except Exception as e:
+        print(json.dumps(f'second compile fails: {type(e).__name__}: {e}'))
+    sys.exit(0)
 
 if __name__ == '__main__' and '--fingerprints' in sys.argv:
     texts = json.loads(sys.stdin.read())
